@@ -361,6 +361,18 @@ def handler(payload):
                     elif ch["kind"] == "grow_load":
                         cmd = img.boot_sections[ch["section"]][ch["index"]]
                         cmd.data = bytes.fromhex(ch["data"])
+                    elif ch["kind"] == "replace_section":          # image[k] = other section (other id)
+                        s_ = ch["sec"]
+                        img[ch["section"]] = BootSectionV2(s_["uid"], *[mk_cmd(c, C, ExtMemId, MemIdEnum) for c in s_["cmds"]],
+                                                           hmac_count=s_["hmac"], zero_filling=bool(s_.get("zero", 0)))
+                    elif ch["kind"] == "set_uid":                  # section.uid = n after the section was added
+                        img[ch["section"]].uid = ch["uid"]
+                    elif ch["kind"] == "insert_section":           # the public list attribute
+                        s_ = ch["sec"]
+                        img.boot_sections.insert(ch["section"], BootSectionV2(s_["uid"], *[mk_cmd(c, C, ExtMemId, MemIdEnum) for c in s_["cmds"]],
+                                                           hmac_count=s_["hmac"], zero_filling=bool(s_.get("zero", 0))))
+                    elif ch["kind"] == "remove_section":
+                        img.boot_sections.pop(ch["section"])
                     img.update()
                     return img.export()
                 rec["changed"] = res(guarded(changed, seconds=60), lambda d: d.hex())
